@@ -189,14 +189,28 @@ def handshake_history(rng, sid_n, quick):
         seq = []
         # an abandoned first attempt, then the real one; each message possibly retransmitted
         if rng.random() < 0.3:
-            seq += [(1, m1)] * rng.choice([1, 2]) + ([(2, m2)] if rng.random() < 0.5 else [])
+            seq += [(1, m1, 0)] * rng.choice([1, 2]) + ([(2, m2, 0)] if rng.random() < 0.5 else [])
         for msg, fr in ((1, m1), (2, m2), (3, m3), (4, m4)):
-            seq += [(msg, fr)] * rng.choice([1, 1, 1, 2, 3])
-        stations.append({'sta': sta, 'ptk': ptk, 'version': version, 'bad': bad_mic, 'seq': seq, 'done': False, 'idx': i})
+            seq += [(msg, fr, 0)] * rng.choice([1, 1, 1, 2, 3])
+        ptks = [ptk]
+        bads = [bad_mic]
+        if rng.random() < 0.35:
+            # the station re-associates: a second complete handshake with fresh nonces replaces the session keys
+            anonce, snonce = rb(rng, 32), rb(rng, 32)
+            ptk = W.ptk_from(pmk, bssid, sta, anonce, snonce)
+            kck = ptk[:16]
+            bad_mic = False
+            replay += 10
+            for msg, fr in ((1, frame(1, replay, True, anonce)), (2, frame(2, replay, False, snonce, rb(rng, 22))),
+                            (3, frame(3, replay + 1, True, anonce, rb(rng, 56))), (4, frame(4, replay + 1, False, bytes(32)))):
+                seq += [(msg, fr, 1)] * rng.choice([1, 1, 2])
+            ptks.append(ptk)
+            bads.append(False)
+        stations.append({'sta': sta, 'ptks': ptks, 'bads': bads, 'ptk': None, 'old': None, 'version': version, 'seq': seq, 'done': False, 'idx': i})
     # interleave the stations' sequences, beacons and protected data frames
     queues = [list(s['seq']) for s in stations]
     nkeys = 0
-    seen4 = [False] * nsta
+    seen4 = set()
     last = [0] * nsta
     while any(queues) or rng.random() < 0.5:
         r = rng.random()
@@ -207,14 +221,16 @@ def handshake_history(rng, sid_n, quick):
         live = [i for i, q in enumerate(queues) if q]
         if live and r < 0.75:
             i = rng.choice(live)
-            msg, fr = queues[i].pop(0)
+            msg, fr, hsi = queues[i].pop(0)
             s = stations[i]
-            first4 = msg == 4 and not seen4[i]
+            first4 = msg == 4 and (i, hsi) not in seen4
             if first4:
-                seen4[i] = True
-                if not s['bad']:
+                seen4.add((i, hsi))
+                if not s['bads'][hsi]:
+                    if not s['done']:
+                        nkeys += 1
                     s['done'] = True
-                    nkeys += 1
+                    s['old'], s['ptk'] = s['ptk'], s['ptks'][hsi]
             lines.append('wpa ' + hx(fr))
             exp.append(('eapol', nkeys))
             mlines.append((len(lines) - 1, 'hs %d %d %d' % (i, msg, len(lines))))
@@ -225,14 +241,17 @@ def handshake_history(rng, sid_n, quick):
         pt = plaintext(rng, rng.choice([1, 16, 40, 200]))
         to_ds, from_ds, qos, hdr, (da, sa, ta), addrs = header_variant(rng, bssid, s['sta'], bytes([2]) + rb(rng, 5), force=rng.choice([(1, 0), (0, 1)]))
         pn = rng.randrange(1 << 48)
+        # under the current session keys (or, before any handshake completed, the ones to come), sometimes under superseded ones
+        stale = s['old'] is not None and rng.random() < 0.3
+        key = s['old'] if stale else (s['ptk'] or s['ptks'][0])
         if s['version'] == 2:
-            body = W.ccmp_encrypt(s['ptk'][32:48], hdr, pn, 0, pt)
+            body = W.ccmp_encrypt(key[32:48], hdr, pn, 0, pt)
         else:
-            body = W.tkip_encrypt(s['ptk'][32:48], s['ptk'][48:56] if from_ds else s['ptk'][56:64], ta, da, sa, (qos or 0) & 7, pn, 0, pt)
+            body = W.tkip_encrypt(key[32:48], key[48:56] if from_ds else key[56:64], ta, da, sa, (qos or 0) & 7, pn, 0, pt)
         lines.append('snap ' + hx(pt))
         exp.append(None)
         lines.append('wpa ' + hx(hdr + body))
-        exp.append(('data', nkeys, pt if s['done'] else None))
+        exp.append(('data', nkeys, pt if (s['done'] and not stale) else None))
         if not any(queues) and rng.random() < 0.5:
             break
     return lines, exp, mlines
